@@ -35,6 +35,14 @@ impl SwiftField for Field34F {
     where
         Self: Sized,
     {
+        // The formats below are cut out by byte offsets: only ASCII can be sliced safely, and
+        // no SWIFT character set contains anything else
+        if !input.is_ascii() {
+            return Err(ParseError::InvalidFormat {
+                message: "Field 34F must contain only ASCII characters".to_string(),
+            });
+        }
+
         // Field34F format: 3!a[1!a]15d (currency + optional indicator + amount)
         if input.len() < 4 {
             // Minimum: 3 chars currency + 1 digit amount
